@@ -51,6 +51,18 @@ lemma psumFrame(l LineInfoList, m LineInfoList, k int)
   ensures old(psum(l, k)) == psum(m, k)
   induction k from 0
 
+// the line of instruction index i: the line of the entry whose block contains it, -1 beyond the
+// table.  `pure`: a function of the table and i, so that callers (stack traces, C32) can name it.
+func (LineInfoList).GetLineNumber
+  props C32
+  pure
+  reads M_ptr H_bytecode.LineInfo_LineNumber H_bytecode.LineInfo_InstructionCount
+  requires wfLines(l)
+  requires psum(l, len(l)) <= 72057594037927936
+  assigns nothing
+  ensures inblock: forall k int :: 0 <= k && k < len(l) && psum(l, k) <= instructionIndex && instructionIndex < psum(l, k + 1) ==> ret == elem(l, k).LineNumber
+  ensures beyond: instructionIndex >= psum(l, len(l)) ==> ret == -1
+
 func (LineInfoList).Last
   props C32
   assigns nothing
